@@ -79,7 +79,7 @@ def repr_def(rng, did, n=None, repr_=None, anchored=None, kinds="mixed", generic
         kind = "unit" if kinds == "unit" else rng.choice(["unit", "unit", "unit", "tuple", "named"])
         nf = 0 if kind == "unit" else rng.choice([1, 2])
         fs = SC.rand_fields(rng, kind, nf, generics)
-        v = variant(IG.IDS[i], kind, fs, dis=(rng.random() < 0.3) and not for_disc)
+        v = IG.decorate(rng, variant(IG.IDS[i], kind, fs, dis=(rng.random() < 0.3) and not for_disc))
         if explicit:
             v["disc"] = [val - anchor]
             if anchored:
@@ -89,7 +89,7 @@ def repr_def(rng, did, n=None, repr_=None, anchored=None, kinds="mixed", generic
             else:
                 v["discx"] = expr_form(rng, val, R) if repr_ != "none" else rng.choice([str(val), hex(val)])
         vs.append(v)
-    E = enum(did, vs, repr_=repr_, generics=generics)
+    E = enum(did, vs, repr_=repr_, generics=generics, split=rng.randrange(2))
     # the same integer repr written together with / next to an alignment hint
     if repr_ != "none" and n > 0 and not for_disc:
         mode = rng.choice(["plain", "plain", "plain", "align_combined", "align_combined_last", "align_split_first", "align_split_last"])
